@@ -213,6 +213,43 @@ def deterministic_oracles(ctx, rng):
                            {'refitted': {'tau': obj.tau, 'theta': obj.theta}, 'fresh': {'tau': fresh.tau, 'theta': fresh.theta}},
                            'a re-fitted model samples like a fresh model fitted on the same data (stream = f(parameters, seed))',
                            f'{fam}.sample:refit-differs-from-fresh')
+    # (ii-b) history with a refused re-fit: fit(data0), then a re-fit on data that check_marginal refuses (a value outside
+    # [0, 1]); the refusal leaves the model as it was — tau and theta still belong together — and it samples like a
+    # fresh model fitted on data0
+    for fam in B.FAMS:
+        tau0 = 0.45
+        rho = math.sin(math.pi * tau0 / 2)
+        z = np.random.RandomState(321).multivariate_normal([0, 0], [[1, rho], [rho, 1]], size=150)
+        d0 = stats.norm.cdf(z)
+        z2 = np.random.RandomState(322).multivariate_normal([0, 0], [[1, 0.1], [0.1, 1]], size=150)
+        for bname, badrow in (('value-above-1', [1.5, 0.5]), ('value-below-0', [0.4, -0.3])):
+            dbad = stats.norm.cdf(z2)
+            dbad[7] = badrow
+            obj, fresh = B.cls_of(fam)(), B.cls_of(fam)()
+            obj.fit(d0)
+            fresh.fit(d0)
+            before = (obj.tau, obj.theta)
+            try:
+                obj.fit(dbad)
+                refused = False
+            except ValueError:
+                refused = True
+            checked += 1
+            if not refused:
+                continue            # acceptance of such data is C10's subject, not this property's
+            obj.set_random_state(11)
+            fresh.set_random_state(11)
+            try:
+                a, b = np.asarray(obj.sample(20)), np.asarray(fresh.sample(20))
+            except Exception as e:  # noqa
+                a, b = f'{vc.exc_kind(e)}: {e}', None
+            if not ((obj.tau, obj.theta) == before and b is not None and np.array_equal(a, b)):
+                found += 1
+                ctx.fail_input(f'{fam}.sample', {'history': f'fit(data0), fit(data with {bname}) -> refused, sample', 'bad_row': badrow},
+                               {'before': {'tau': before[0], 'theta': before[1]}, 'after': {'tau': obj.tau, 'theta': obj.theta}},
+                               'a refused re-fit leaves tau and theta as they were; the model samples like a fresh fit of data0',
+                               f'{fam}.sample:refused-refit-changes-model')
+                break
     # (v) repeated calls on one seeded model: the model's own stream advances from call to call and is a function of
     # (parameters, seed, call number) only — whatever the global NumPy state is before each call
     for fam in B.FAMS:
